@@ -2331,12 +2331,19 @@ class LoadCircuit(Network):
     @property
     def I(self):
         """Current into load."""
-        return self.inet.Isc
+        # The current flows out of the positive terminal of the source
+        # and into the positive terminal of the load, so a source in
+        # the load opposes the source: I = (Voc_s - Voc_l) / (Z_s + Z_l).
+        # By superposition: the sources of the source network drive the
+        # loop one way, the sources of the load network the other way.
+        Is = Ser(self.source_OP, Z(self.load_OP.Z)).Isc
+        Il = Ser(self.load_OP, Z(self.source_OP.Z)).Isc
+        return Is - Il
 
     @property
     def i(self):
         """Time-domain current into load."""
-        return self.inet.isc
+        return self.I.time()
 
     def _net_make(self, netlist, n1=None, n2=None, dir='right'):
 
